@@ -104,6 +104,15 @@ func genCase(t *rapid.T) Case {
 	} else {
 		c.Z = related(t, c.Ctx, c.X, "z")
 	}
+	// zeros order by their exponent alone in CmpTotal: exercise the whole int32 exponent
+	// field for them (no power of ten is ever computed for a zero coefficient)
+	if gen.Pick(t, 25, "zeroext") == 0 {
+		ext := []int32{-2147483648, 2147483647, -2000000000, 2000000000, -1073741824, 1073741824, 0, -100000, 100000}
+		neg := rapid.Bool().Draw(t, "zneg")
+		c.X = core.Dec{Coeff: "0", Neg: neg, Exp: ext[gen.Pick(t, len(ext), "ze1")]}
+		c.Y = core.Dec{Coeff: "0", Neg: neg, Exp: ext[gen.Pick(t, len(ext), "ze2")]}
+		c.Z = core.Dec{Coeff: "0", Neg: rapid.Bool().Draw(t, "zneg3"), Exp: ext[gen.Pick(t, len(ext), "ze3")]}
+	}
 	for _, d := range []*core.Dec{&c.X, &c.Y, &c.Z} {
 		if d.Form >= 2 { // canonical NaNs: text and decomposer formats carry no payload
 			d.Coeff, d.Exp = "0", 0
@@ -345,6 +354,14 @@ func enumerated() []Case {
 			out = append(out, Case{Ctx: ctx, X: core.Dec{Coeff: full, Neg: neg}, Y: core.Dec{Coeff: "1", Exp: int32(k), Neg: neg}, Z: core.Dec{Coeff: plus, Neg: neg}})
 			out = append(out, Case{Ctx: ctx, X: core.Dec{Coeff: "1", Exp: int32(k), Neg: neg}, Y: core.Dec{Coeff: plus, Neg: neg}, Z: core.Dec{Coeff: "9", Exp: int32(k - 1), Neg: neg}})
 		}
+	}
+	// equal adjusted exponents with an exponent gap above 100000 (needs a coefficient of more
+	// than 100000 digits; both operands are within the package limits)
+	huge := "1" + strings.Repeat("0", 100001)
+	hugeP := "1" + strings.Repeat("0", 100000) + "7"
+	for _, neg := range []bool{false, true} {
+		out = append(out, Case{Ctx: ctx, X: core.Dec{Coeff: huge, Exp: -gen.Limit, Neg: neg}, Y: core.Dec{Coeff: "1", Exp: 1, Neg: neg}, Z: core.Dec{Coeff: hugeP, Exp: -gen.Limit, Neg: neg}})
+		out = append(out, Case{Ctx: ctx, X: core.Dec{Coeff: "2", Exp: 1, Neg: neg}, Y: core.Dec{Coeff: hugeP, Exp: -gen.Limit, Neg: neg}, Z: core.Dec{Coeff: "1", Exp: 1, Neg: neg}})
 	}
 	return out
 }
